@@ -120,6 +120,8 @@ def mon_c11_fs(case, verdict, chk):
     p, s = case.get("parse") or {}, case.get("subcache") or {}
     _crash(chk, "fs", p.get("class"), _site(p.get("panic_site")), "engine.Parse", case)
     _crash(chk, "fs", s.get("class"), _site(s.get("panic_site")), "engine.SubworkflowCache", case)
+    m = case.get("parse_mem") or {}
+    _crash(chk, "fs", m.get("class"), _site(m.get("panic_site")), "engine.Parse (caller-supplied copies that differ from the context directory)", case)
     problems, reachable = fs_problems(case)
     for obs, name in ((p, "engine.Parse"), (s, "engine.SubworkflowCache")):
         if obs.get("class") == "ok":
